@@ -935,6 +935,37 @@ func checkC05(c *Ctx) {
 	u.buildSSA()
 	checkProgress(c, u)
 
+	// ---- C05.whole: compilation yields a tree only for the whole text: after the program production ParseAST tests that the
+	// next token is the end-of-input token (the lexer runs one token ahead, so the cursor position does not tell)
+	if g := u.ssaFunc("pkg/syntax/zh", "ParserZH.ParseAST"); g != nil {
+		eof := constsWithPrefix(u.Pkgs["pkg/syntax/zh"], "TypeEOF")["TypeEOF"]
+		okW := false
+		for _, b := range g.Blocks {
+			ifi, ok := b.Instrs[len(b.Instrs)-1].(*ssa.If)
+			if !ok {
+				continue
+			}
+			bo, ok := ifi.Cond.(*ssa.BinOp)
+			if !ok || (bo.Op != token.NEQ && bo.Op != token.EQL) {
+				continue
+			}
+			k, isK := bo.Y.(*ssa.Const)
+			base, isT := fieldLoad(bo.X, "Type")
+			if !isK || !isT || k.Int64() != eof {
+				continue
+			}
+			if flowsFrom(base, func(v ssa.Value) bool {
+				call, isC := v.(*ssa.Call)
+				return isC && u.callName(call) == "pkg/syntax/zh.ParserZH.peek"
+			}) {
+				okW = true
+			}
+		}
+		R.check(okW, "C05.whole", "pkg/syntax/zh.ParserZH.ParseAST:nothing-left", u.pos(g.Pos()), "after the program production the next token must be the end-of-input token", "ParseAST no longer tests that the token after the program is the end-of-input token: a last line that belongs to no block is dropped silently and a half-read program is compiled without error")
+	} else {
+		R.lost("C05.whole", "pkg/syntax/zh.ParserZH.ParseAST")
+	}
+
 	// ---- C05.panic
 	nP := 0
 	for _, f := range u.srcFuncs("pkg/syntax/zh") {
